@@ -126,6 +126,9 @@ def run(case):
         for i, o in enumerate(objs):
             now = B.snap_nfa(o.lib)
             if now != o.snap:
+                bad = fa.valid_nfa_snapshot(now)
+                if bad:
+                    raise Fail("operand_invalidated", "object %d is no longer a valid NFA after %s: %s" % (i, what, bad))
                 check_language(now, o.ref, "object %d after %s" % (i, what), "operand_language_changed")
                 cls.add("operand_content_changed_language_kept")   # content purity is C19's business
                 o.snap = now
